@@ -15,6 +15,7 @@ class Prop(BaseProp):
         "tokio scheduling of concurrently cleaned files: sampled (fp files), covered in the model by the oracle quantifier",
     ]
     assumptions = [
+        "theorem hypotheses (StoreOk): no two xorbs of the store share a hash with different contents, no non-empty xorb hashes to zero, the first 8 bytes of distinct chunk hashes differ (the model keys the deduper's lookup by them), chunks are non-empty, every xorb the run uploads or registers is in the store, the data interface answers only with xorbs of the store (TableOk) and no xorb reaches 4 GiB",
         "configurations: HF_XET_TARGET_CHUNK_SIZE/MAX_XORB_BYTES/MAX_XORB_CHUNKS/NRANGES/INGESTION_BLOCK_SIZE scaled down through the code's own environment overrides (dev profile), one process per configuration",
         "the crate's debug-only shard self-check is switched off through the xet_verif hook (see DESIGN.md, observations)",
     ]
